@@ -145,6 +145,26 @@ def concurrenceArg {α : Type} [Add α] [Zero α] [One α] [Neg α] [Mul α] [Co
     Nat → Nat → α :=
   matMul 4 (matMul 4 S (spinFlip ρ)) S
 
+/-! ### Bell-diagonal states (`state/_internal.py:86-106`, `Bell(i)` = Φ+, Φ−, Ψ+, Ψ−) -/
+
+/-- entries of `2·Σ_i p_i |Bell_i⟩⟨Bell_i|` (the factor 2 keeps the model division-free) -/
+def bellDiag2 {α : Type} [Add α] [Sub α] [Zero α] (p : Nat → α) : Nat → Nat → α := fun r c =>
+  if (r = 0 ∧ c = 0) ∨ (r = 3 ∧ c = 3) then p 0 + p 1
+  else if (r = 0 ∧ c = 3) ∨ (r = 3 ∧ c = 0) then p 0 - p 1
+  else if (r = 1 ∧ c = 1) ∨ (r = 2 ∧ c = 2) then p 2 + p 3
+  else if (r = 1 ∧ c = 2) ∨ (r = 2 ∧ c = 1) then p 2 - p 3
+  else 0
+
+/-- the (unnormalised, ×√2) Bell vectors in the order in which they diagonalise the partial transpose of a Bell-diagonal
+state: `(1,0,0,1), (1,0,0,-1), (0,1,1,0), (0,1,-1,0)` -/
+def bellVec {α : Type} [Zero α] [One α] [Neg α] (i r : Nat) : α :=
+  match i, r with
+  | 0, 0 => 1 | 0, 3 => 1
+  | 1, 0 => 1 | 1, 3 => -1
+  | 2, 1 => 1 | 2, 2 => 1
+  | 3, 1 => 1 | 3, 2 => -1
+  | _, _ => 0
+
 /-! ### pure-state concurrence (`eof.py:37-57`) -/
 
 /-- `get_concurrence_pure(psi)` for `psi` of shape `(dA,dB)` (both > 1) returns `np.sqrt` of this number:
